@@ -8,7 +8,7 @@ pf=$(realpath "$1"); prop=$2; dump=${3:-}
 [ -z "$(git -C /repo status --porcelain)" ] || { echo "/repo not clean"; exit 2; }
 git -C /repo apply "$pf" || exit 2
 ev=$(mktemp -d /tmp/ev-try.XXXXXX)
-args=(-repo /repo -prop "$prop" -out "$ev" -known /verif/known_findings.json -list)
+args=(-repo /repo -prop "$prop" -out "$ev" -known /verif/known_findings.json)
 [ -n "$dump" ] && args+=(-dump-inlined "$dump")
 ./bin/absnfs-lint "${args[@]}" 2>&1 | grep -E '^  (violated|undecided) |LOAD FAILURE|panic|^C[0-9][0-9]:' | cut -c1-${PATCH_WIDTH:-600}
 grep -ho '"helper_inlining": "[^"]*"' "$ev"/C*.json | sort -u | cut -c1-600
